@@ -225,10 +225,44 @@ def runOps (t : Tree) (n : Nat) : List String → List Req → List String → O
       let (st', o) := step true t st op
       runOps t n rest st' (showOp n op st' o :: acc)
 
+/-- mini-server request token `q,<peer>,<head>,<core attrs>,<clean attrs>`: the generator
+    states which attributes the request has when http_response_config() runs for the last
+    time (core settings) and at the uri_clean / docroot hooks (mod_setenv settings, probe);
+    the model says which settings the language gives for them -/
+def srvReq (t : Tree) (n : Nat) (tok : String) : Option String :=
+  match tok.splitOn "," with
+  | ["q", _, _, core, clean] => do
+    let envOf (s : String) : Option Env :=
+      if s = "-" then some default else ((s.splitOn ";").mapM attrOf).map (applySets default)
+    let e1 ← envOf core
+    let e2 ← envOf clean
+    let all : Comp → Bool := fun _ => true
+    let c1 := (patch t e1 all [0, 1, 2] (Cache.empty n)).1
+    let c2 := (patch t e2 all [3, 4, 5] (Cache.empty n)).1
+    let bits := String.ofList (((List.range n).drop 1).map fun i =>
+      if (check t e2 all n i (Cache.empty n)).1 = .true_ then '1' else '0')
+    some s!"c{c1 0}.{c1 1}.{c1 2},e{c2 3}.{c2 4}.{c2 5},d{bits},{toHex e2.scheme},{toHex e2.url},{toHex e2.query},{toHex e2.ipStr}"
+  | _ => none
+
 end CondP
 
 open CondP in
 def condLine : List String → String
+  | "srv" :: _cfg :: rest =>
+    let nodeToks := rest.takeWhile (· ≠ "/")
+    let reqToks := (rest.dropWhile (· ≠ "/")).drop 1
+    if rest.all (· ≠ "/") then "bad-op" else
+    match nodeToks.mapM nodeOf with
+    | none => "bad-op"
+    | some nds =>
+      let t := link (nds.map (·.1))
+      let n := t.length
+      if n = 0 then "bad-op" else
+      let tree := toString n ++ (if decide (WF t) then " W1" else " W0") ++ String.join (((List.range n).drop 1).map fun i =>
+        " " ++ dumpNode i (t.node i) ((nds.getD i default).2))
+      match reqToks.mapM (srvReq t n) with
+      | none => "bad-op"
+      | some outs => tree ++ " /" ++ String.join (outs.map (" " ++ ·))
   | "c" :: _cfg :: rest =>
     let nodeToks := rest.takeWhile (· ≠ "/")
     let opToks := (rest.dropWhile (· ≠ "/")).drop 1
